@@ -52,19 +52,19 @@ Definition sp_before (first : bool) (r : wrun) : N := if run_styled r then 0 els
 Definition sp_after (r : wrun) (l' : list wrun) : N := if run_styled r then 0 else match l' with [] => 0 | _ => 1 end.
 (* what the reader returns for a line: as for open subtitling, and the ASCII spaces around the untrimmed text: the
    separating space lands in the text of an unstyled run, never in that of a styled one *)
-Fixpoint expected_ttx_from (first : bool) (a : eattr) (l : list wrun) : list erun :=
+Fixpoint expected_ttx_from (first : bool) (a : sattr_stl) (l : list wrun) : list erun :=
   match l with
   | [] => []
   | r :: l' => mkErun (wr_text r) (open_attr r a) (Some (sp_before first r)) (Some (sp_after r l'))
                :: expected_ttx_from false (close_attr r a) l'
   end.
-Definition expected_ttx_line (l : list wrun) : list erun := expected_ttx_from true eattr0 l.
+Definition expected_ttx_line (l : list wrun) : list erun := expected_ttx_from true sattr0_stl l.
 
 Lemma table_11 : alookup 11 stl_table = None.
 Proof. vm_compute. reflexivity. Qed.
 
 (* the start-box code *)
-Lemma ttx_start row acc : stl_ttx_row (11 :: row) [] [] eattr0 false acc = stl_ttx_row row [] [] eattr0 true acc.
+Lemma ttx_start row acc : stl_ttx_row (11 :: row) [] [] sattr0_stl false acc = stl_ttx_row row [] [] sattr0_stl true acc.
 Proof.
   cbn [stl_ttx_row]. change (11 <=? 7) with false. change (11 =? 10) with false. change (11 =? 11) with true.
   change (11 =? 12) with false. change (11 =? 13) with false. change (11 =? 14) with false. change (11 =? 15) with false.
@@ -194,7 +194,7 @@ Proof.
 Qed.
 
 Lemma ttx_line_row k l : line_repr l ->
-  stl_ttx_row (line_bytes l ++ repeat 143 k) [] [] eattr0 true None = (expected_ttx_line l, None).
+  stl_ttx_row (line_bytes l ++ repeat 143 k) [] [] sattr0_stl true None = (expected_ttx_line l, None).
 Proof.
   intros (Hne & HF & Hadj). rewrite (ttx_line_go k l true); [reflexivity | exact Hne | exact HF | exact Hadj | intros _; left; split; reflexivity].
 Qed.
@@ -211,7 +211,7 @@ Lemma pad_okb k : forallb okb (repeat 143 k) = true.
 Proof. induction k as [|k IH]; [reflexivity|]. cbn [repeat forallb]. rewrite IH. reflexivity. Qed.
 
 Lemma rows_ttx_step row rows l lines : nmem 11 row = false ->
-  stl_ttx_row row [] [] eattr0 true None = (l, None) -> l <> [] ->
+  stl_ttx_row row [] [] sattr0_stl true None = (l, None) -> l <> [] ->
   rows_ttx (row :: rows) None lines = rows_ttx rows None (l :: lines).
 Proof. intros Hn H Hne. cbn [rows_ttx]. rewrite Hn, ttx_start, H. destruct l; [contradiction | reflexivity]. Qed.
 
@@ -286,11 +286,11 @@ Qed.
 (* ================= the item of StlRows.v, read as teletext ================= *)
 Example ex_item_ttx :
   rows_ttx (split_byte 138 (pad_right_cut 143 112 (encode_text_stl (stl_item_text ex_item)))) None []
-  = ([ [ mkErun [67;97;102;195;169] eattr0 (Some 0) (Some 1);
-         mkErun [120;32;121] (mkEattr (Some true) (Some true) None None None None None) (Some 0) (Some 0);
-         mkErun [49;48;32;194;164] (mkEattr (Some false) (Some false) None None None None None) (Some 1) (Some 0) ];
-       [ mkErun [72;105] (mkEattr None None (Some true) None None None None) (Some 0) (Some 0);
-         mkErun [116;104;101;114;101] (mkEattr (Some true) None (Some false) None None None None) (Some 0) (Some 0) ] ], None).
+  = ([ [ mkErun [67;97;102;195;169] sattr0_stl (Some 0) (Some 1);
+         mkErun [120;32;121] (mkSattrStl (Some true) (Some true) None None None None None) (Some 0) (Some 0);
+         mkErun [49;48;32;194;164] (mkSattrStl (Some false) (Some false) None None None None None) (Some 1) (Some 0) ];
+       [ mkErun [72;105] (mkSattrStl None None (Some true) None None None None) (Some 0) (Some 0);
+         mkErun [116;104;101;114;101] (mkSattrStl (Some true) None (Some false) None None None None) (Some 0) (Some 0) ] ], None).
 Proof. vm_compute. reflexivity. Qed.
 Example ex_item_ttx_thm :
   rows_ttx (split_byte 138 (pad_right_cut 143 112 (encode_text_stl (stl_item_text ex_item)))) None []
